@@ -1106,9 +1106,23 @@ func (x *explorer) allowHugeRealloc(depth int, pages uint32, op Op) bool {
 	}
 	switch x.tier.Name {
 	case "thorough":
-		// every configuration: from the initial state straight to the bound, by the host and by the fused guest
-		// function; the designated declarations (min=1, max absent): by every source.
-		return x.expandHugeStates() || op.Src == "host" || strings.HasSuffix(op.Src, "f")
+		// every configuration: from the initial state straight to the bound, alternately (by a fixed parity of
+		// the configuration) through the host or through the fused guest function; the designated declarations
+		// (min=1, max absent): by every source.
+		if x.expandHugeStates() {
+			return true
+		}
+		par := c.Min + c.Limit
+		if c.Imported {
+			par++
+		}
+		if c.HasMax {
+			par += c.Max
+		}
+		if par%2 == 0 {
+			return op.Src == "host"
+		}
+		return strings.HasSuffix(op.Src, "f")
 	default:
 		// two transitions in total
 		if c.HasMax || c.Min != 1 || x.engine != "compiler" {
